@@ -690,6 +690,235 @@ Qed.
 End ViewLemmas.
 
 (* ------------------------------------------------------------------ *)
+(* ragged indexed contiguous                                            *)
+(* ------------------------------------------------------------------ *)
+Section IC.
+Context {A : Type}.
+Context (miss : A).
+
+Lemma cumsum_from_length : forall l acc, length (cumsum_from acc l) = length l.
+Proof. induction l; intros; simpl; auto. Qed.
+
+Lemma cumsum_from_nth : forall l acc p, (p < length l)%nat ->
+  nth p (cumsum_from acc l) 0%nat = (acc + sum (firstn (S p) l))%nat.
+Proof.
+  induction l as [|x r IH]; intros acc p H; simpl in H; [lia|].
+  destruct p.
+  - simpl. unfold sum. simpl. lia.
+  - cbn [cumsum_from nth]. rewrite IH by lia.
+    change (firstn (S (S p)) (x :: r)) with (x :: firstn (S p) r).
+    unfold sum. cbn [fold_right]. lia.
+Qed.
+
+Lemma sum_firstn_S : forall l p, (p < length l)%nat ->
+  sum (firstn (S p) l) = (sum (firstn p l) + nth p l 0)%nat.
+Proof.
+  induction l as [|x r IH]; intros p H; simpl in H; [lia|].
+  destruct p.
+  - unfold sum. simpl. lia.
+  - change (firstn (S (S p)) (x :: r)) with (x :: firstn (S p) r).
+    change (firstn (S p) (x :: r)) with (x :: firstn p r).
+    unfold sum in *. cbn [fold_right nth]. rewrite IH by lia. lia.
+Qed.
+
+Lemma profile_slice_eq : forall counts p, (p < length counts)%nat ->
+  profile_slice (cumsum counts) p =
+  SSlice (sum (firstn p counts)) (sum (firstn p counts) + nth p counts 0%nat).
+Proof.
+  intros counts p H. unfold profile_slice, cumsum.
+  rewrite cumsum_from_nth by exact H. rewrite sum_firstn_S by exact H. simpl plus.
+  destruct p as [|p']; [reflexivity|].
+  rewrite cumsum_from_nth by lia. reflexivity.
+Qed.
+
+Definition fsel (nprof : nat) (cps : list nat) (index : list Z) (i : Z) : list selector :=
+  let locs := positions_eq i index 0 in
+  map (profile_slice cps) locs ++ repeat (SSlice 0 0) (nprof - length locs).
+
+Lemma ic_feature_ok : forall nprof cps index i, (length index <= length cps)%nat ->
+  ic_feature_selectors nprof cps index i = Ok (fsel nprof cps index i).
+Proof.
+  intros nprof cps index i H. unfold ic_feature_selectors, fsel.
+  replace (forallb (fun j => (j <? length cps)%nat) (positions_eq i index 0)) with true; [reflexivity|].
+  symmetry. apply forallb_forall. intros p Hp.
+  pose proof (positions_eq_bound index i 0) as B. rewrite Forall_forall in B.
+  specialize (B p Hp). apply Nat.ltb_lt. lia.
+Qed.
+
+Lemma ic_selectors_ok : forall nprof cps index feats, (length index <= length cps)%nat ->
+  ic_selectors nprof cps index feats = Ok (concat (map (fsel nprof cps index) feats)).
+Proof.
+  intros nprof cps index feats H. induction feats as [|i r IH]; [reflexivity|].
+  simpl. rewrite ic_feature_ok by exact H. simpl. rewrite IH. reflexivity.
+Qed.
+
+Lemma fsel_length : forall nprof cps index i,
+  (count_occ Z.eq_dec index i <= nprof)%nat -> length (fsel nprof cps index i) = nprof.
+Proof.
+  intros. unfold fsel. rewrite app_length, map_length, repeat_length, length_positions_eq. lia.
+Qed.
+
+Lemma nth_error_concat_uniform : forall {B} n (bs : list (list B)) i j,
+  Forall (fun b => length b = n) bs -> (j < n)%nat ->
+  nth_error (concat bs) (i * n + j) =
+  match nth_error bs i with Some b => nth_error b j | None => None end.
+Proof.
+  intros B n bs. induction bs as [|b r IH]; intros i j HF Hj.
+  - simpl. destruct (i * n + j)%nat; destruct i; reflexivity.
+  - inversion HF as [|? ? Hb Hr]; subst. simpl concat. destruct i.
+    + simpl. rewrite nth_error_app1 by lia. reflexivity.
+    + rewrite nth_error_app2 by (simpl; lia).
+      replace (S i * length b + j - length b)%nat with (i * length b + j)%nat by (simpl; lia).
+      simpl. apply IH; assumption.
+Qed.
+
+Lemma chunks_spec : forall {B} n k (l : list B), length l = (n * k)%nat ->
+  length (chunks n k l) = n /\ Forall (fun c => length c = k) (chunks n k l) /\
+  forall i j d, (i < n)%nat -> (j < k)%nat -> nth j (nth i (chunks n k l) []) d = nth (i * k + j) l d.
+Proof.
+  intros B n k. induction n as [|n IH]; intros l Hl.
+  - simpl. splits; auto. intros; lia.
+  - simpl chunks. destruct (IH (skipn k l)) as [H1 [H2 H3]].
+    { rewrite skipn_length, Hl. simpl. lia. }
+    splits.
+    + simpl. rewrite H1. reflexivity.
+    + constructor; [|exact H2]. rewrite firstn_length, Hl. simpl. lia.
+    + intros i j d Hi Hj. destruct i.
+      * simpl. rewrite <- (firstn_skipn k l) at 2. rewrite app_nth1; [reflexivity|].
+        rewrite firstn_length, Hl. simpl. lia.
+      * cbn [nth]. rewrite H3 by lia.
+        rewrite <- (firstn_skipn k l) at 2. rewrite app_nth2.
+        -- f_equal. rewrite firstn_length, Hl. simpl. lia.
+        -- rewrite firstn_length, Hl. simpl. lia.
+Qed.
+
+Lemma nth_error_map_some : forall {B C} (f : B -> C) l j,
+  nth_error (map f l) j = option_map f (nth_error l j).
+Proof. intros. apply nth_error_map. Qed.
+
+(* the selector of profile slot (i, j) *)
+Lemma fsel_nth : forall nprof counts index i j,
+  (length index <= length counts)%nat -> (j < nprof)%nat ->
+  (count_occ Z.eq_dec index i <= nprof)%nat ->
+  nth_error (fsel nprof (cumsum counts) index i) j =
+  Some (match find_occ i j index 0 with
+        | Some p => SSlice (sum (firstn p counts)) (sum (firstn p counts) + nth p counts 0%nat)
+        | None => SSlice 0 0
+        end).
+Proof.
+  intros nprof counts index i j Hl Hj Hc. unfold fsel. rewrite find_occ_positions.
+  set (locs := positions_eq i index 0).
+  assert (Hlen : length locs = count_occ Z.eq_dec index i) by apply length_positions_eq.
+  destruct (Nat.lt_ge_cases j (length locs)) as [Hlt|Hge].
+  - rewrite nth_error_app1 by (rewrite map_length; exact Hlt).
+    rewrite nth_error_map. destruct (nth_error locs j) as [p|] eqn:E.
+    + simpl. f_equal. apply profile_slice_eq.
+      pose proof (positions_eq_bound index i 0) as B. rewrite Forall_forall in B.
+      specialize (B p (nth_error_In _ _ E)). lia.
+    + apply nth_error_None in E. lia.
+  - rewrite nth_error_app2 by (rewrite map_length; exact Hge). rewrite map_length.
+    rewrite (proj2 (nth_error_None locs j)) by exact Hge.
+    rewrite (nth_error_nth' _ (SSlice 0 0)) by (rewrite repeat_length; lia).
+    f_equal. apply nth_repeat_miss.
+Qed.
+
+Lemma ic_decode_spec : forall nfeat nprof w counts index (data : list A),
+  (length index <= length counts)%nat ->
+  Forall (fun c => (c <= w)%nat) counts ->
+  (forall i, (i < nfeat)%nat -> (count_occ Z.eq_dec index (Z.of_nat i) <= nprof)%nat) ->
+  exists u, ic_decode miss nfeat nprof w counts index data = Ok u /\
+            length u = nfeat /\ Forall (fun f => length f = nprof) u /\
+            forall i j k, (i < nfeat)%nat -> (j < nprof)%nat ->
+              nth k (nth j (nth i u []) []) miss = ic_spec miss counts index data i j k.
+Proof.
+  intros nfeat nprof w counts index data Hl Hw Hp.
+  unfold ic_decode, ic_decode_with.
+  assert (Hcl : (length index <= length (cumsum counts))%nat)
+    by (unfold cumsum; rewrite cumsum_from_length; exact Hl).
+  rewrite ic_selectors_ok by exact Hcl. cbn [rbind].
+  set (sels := concat (map (fsel nprof (cumsum counts) index) (instances nfeat))).
+  assert (HF : Forall (fun b => length b = nprof) (map (fsel nprof (cumsum counts) index) (instances nfeat))).
+  { apply Forall_forall. intros b Hb. apply in_map_iff in Hb as [z [Hz Hin]]. subst b.
+    unfold instances in Hin. apply in_map_iff in Hin as [i [Hi Hin]]. subst z.
+    apply in_seq in Hin. apply fsel_length, Hp. lia. }
+  assert (Hsel : forall i j, (i < nfeat)%nat -> (j < nprof)%nat ->
+            nth_error sels (i * nprof + j) =
+            Some (match find_occ (Z.of_nat i) j index 0 with
+                  | Some p => SSlice (sum (firstn p counts)) (sum (firstn p counts) + nth p counts 0%nat)
+                  | None => SSlice 0 0
+                  end)).
+  { intros i j Hi Hj. unfold sels. rewrite (nth_error_concat_uniform nprof) by assumption.
+    rewrite nth_error_map, nth_error_instances by exact Hi. simpl.
+    apply fsel_nth; auto. }
+  assert (Hdiv : forall r, (r < nfeat * nprof)%nat ->
+            exists i j, (i < nfeat)%nat /\ (j < nprof)%nat /\ r = (i * nprof + j)%nat).
+  { intros r Hr. assert (Hn : nprof <> 0%nat) by (intro; subst; lia).
+    exists (r / nprof)%nat, (r mod nprof)%nat. splits.
+    - apply Nat.div_lt_upper_bound; [exact Hn|lia].
+    - apply Nat.mod_upper_bound, Hn.
+    - pose proof (Nat.div_mod r nprof Hn). lia. }
+  destruct (assemble_spec miss w data sels (nfeat * nprof)) as [rows [Hr [Hrl [Hrf Hrn]]]].
+  { intros r s Hrlt Hs. destruct (Hdiv r Hrlt) as [i [j [Hi [Hj E]]]]. subst r.
+    rewrite Hsel in Hs by assumption. inversion Hs; subst s. clear Hs.
+    destruct (find_occ (Z.of_nat i) j index 0) as [p|] eqn:Ef.
+    - eexists. split; [reflexivity|]. eapply Nat.le_trans; [apply length_slice_le|].
+      destruct (Nat.lt_ge_cases p (length counts)) as [Hpl|Hpl].
+      + rewrite Forall_forall in Hw. apply Hw. apply nth_In. exact Hpl.
+      + rewrite nth_overflow by exact Hpl. lia.
+    - eexists. split; [reflexivity|]. simpl. lia. }
+  rewrite Hr. cbn [rbind].
+  destruct (chunks_spec nfeat nprof rows Hrl) as [C1 [C2 C3]].
+  eexists. splits; [reflexivity|exact C1|exact C2|].
+  intros i j k Hi Hj. rewrite C3 by assumption.
+  assert (Hlt : (i * nprof + j < nfeat * nprof)%nat) by nia.
+  rewrite Hrn by exact Hlt. unfold sel_at, ic_spec. rewrite Hsel by assumption.
+  destruct (find_occ (Z.of_nat i) j index 0) as [p|].
+  - cbn [select]. unfold contig_spec. apply nth_slice.
+  - cbn [select]. unfold slice_list. simpl. destruct k; reflexivity.
+Qed.
+
+End IC.
+
+(* ------------------------------------------------------------------ *)
+(* compress('indexed_contiguous'): which profiles are stored            *)
+(* ------------------------------------------------------------------ *)
+Lemma n_profiles_le_length : forall cs, (n_profiles cs <= length cs)%nat.
+Proof.
+  induction cs as [|c r IH]; simpl; [lia|].
+  destruct (n_profiles r); destruct c; simpl; lia.
+Qed.
+
+Lemma skipn_n_profiles : forall cs n, (n_profiles cs <= n)%nat ->
+  skipn n cs = repeat 0%nat (length cs - n).
+Proof.
+  induction cs as [|c r IH]; intros n H.
+  - rewrite skipn_nil. reflexivity.
+  - simpl in H. destruct n.
+    + simpl. destruct (n_profiles r) eqn:E; destruct c; try lia.
+      f_equal. assert (G : skipn 0 r = repeat 0%nat (length r - 0)) by (apply IH; lia).
+      simpl in G. rewrite Nat.sub_0_r in G. exact G.
+    + simpl. apply IH. destruct (n_profiles r); destruct c; lia.
+Qed.
+
+(* the profiles that compress('indexed_contiguous') does not store are exactly
+   a feature's trailing empty ones: every stored or dropped profile keeps its
+   position *)
+Lemma n_profiles_trim : forall cs,
+  firstn (n_profiles cs) cs ++ repeat 0%nat (length cs - n_profiles cs) = cs.
+Proof.
+  intros cs. rewrite <- (skipn_n_profiles cs (n_profiles cs) (le_n _)). apply firstn_skipn.
+Qed.
+
+(* and no shorter prefix would do: the last stored profile is non-empty *)
+Lemma n_profiles_last_nonempty : forall cs n, n_profiles cs = S n -> nth n cs 0%nat <> 0%nat.
+Proof.
+  induction cs as [|c r IH]; intros n H; simpl in H; [discriminate|].
+  destruct (n_profiles r) eqn:E.
+  - destruct c; [discriminate|]. inversion H; subst. simpl. discriminate.
+  - inversion H; subst. simpl. apply IH. reflexivity.
+Qed.
+
+(* ------------------------------------------------------------------ *)
 (* open finding, and non-vacuity examples                               *)
 (* ------------------------------------------------------------------ *)
 Open Scope Z_scope.
@@ -748,4 +977,17 @@ Proof.
   exists [[Some 1; None; Some 3]; [None; None; None]; [Some 4; None; None]].
   splits; [|simpl; auto|simpl; auto].
   repeat constructor; simpl; lia.
+Qed.
+
+Lemma ic_decode_example :
+  exists counts index (data : list (option Z)) u,
+    (length index <= length counts)%nat /\ Forall (fun c => (c <= 2)%nat) counts /\
+    (forall i, (i < 3)%nat -> (count_occ Z.eq_dec index (Z.of_nat i) <= 2)%nat) /\
+    ic_decode None 3 2 2 counts index data = Ok u /\
+    u = [[[Some 3; None]; [None; None]]; [[None; None]; [None; None]];
+         [[Some 1; Some 2]; [None; None]]].
+Proof.
+  exists [2; 1; 0]%nat, [2; 0; 2], [Some 1; Some 2; Some 3]. eexists.
+  splits; [simpl; lia|repeat constructor| |vm_compute; reflexivity|reflexivity].
+  intros i Hi. destruct i as [|[|[|i]]]; vm_compute; lia.
 Qed.
